@@ -64,3 +64,15 @@ Theorem C09_pass_order_from_source : forall its consts0 labels0 compress,
         PassOrder.finish.
 Proof. exact PassOrder.assemble_is_pass_order. Qed.
 Print Assumptions C09_pass_order_from_source.
+
+(* the padding is computed by the SOURCE's own formula: Align.resolution_size is translated on every run (Gen/Sizes.v
+   align_resolution_size), it is what the alignment pass of the model applies, and it equals the documented minimal padding
+   (N - p mod N) mod N for EVERY N >= 1 and every position -- an edit of the formula (e.g. the bitmask form
+   -position & (N - 1), right for powers of two only) breaks this proof *)
+Theorem C09_padding_from_source :
+  (forall l n pos ls, align_rule l (IAlign n) pos ls =
+     if n =? 0 then Fail (PRaw OtherExn)
+     else let p := Gen.Sizes.align_resolution_size n pos in if p =? 0 then Done [] else Done [IZeros p]) /\
+  (forall n pos, 1 <= n -> Gen.Sizes.align_resolution_size n pos = (n - pos mod n) mod n).
+Proof. split. exact SizesTable.align_rule_from_source. exact SizesTable.resolution_size_spec. Qed.
+Print Assumptions C09_padding_from_source.
